@@ -176,5 +176,5 @@ IskRange(v) == IF v.iskLen > 0 THEN LET e == OffsetOf(Final(v), "cert") + v.cert
                  \cup (IF HasReg(Final(v), "mancrc") THEN {<<OffsetOf(Final(v), "mancrc"), OffsetOf(Final(v), "mancrc") + 4>>} ELSE {})
                  \cup (IF HasReg(Final(v), "digest") THEN {<<OffsetOf(Final(v), "digest"), OffsetOf(Final(v), "digest") + DigestLen(v)>>} ELSE {})
                ELSE {}
-Inside(d, ranges) == \E r \in ranges : r[1] <= d[1] /\ d[2] <= r[2]
+Inside(d, ranges) == \A b \in d[1]..(d[2] - 1) : \E r \in ranges : r[1] <= b /\ b < r[2]     \* byte-wise: neighbouring fields may merge into one observed range
 =============================================================================
